@@ -42,10 +42,18 @@ Theorem C16_fields :
   keys (TStruct d_HyperHyperDual TLeaf) = ["re"; "eps1"; "eps2"; "eps3"; "eps1eps2"; "eps1eps3"; "eps2eps3"; "eps1eps2eps3"].
 Proof. repeat split; reflexivity. Qed.
 
+(* no field is written conditionally (skip_serializing_if) and every key is required on input (no default): the struct encoding of Hand/Serde.v
+   -- every member, always -- is the one serde_derive generated *)
+Theorem C16_unconditional :
+  (serde_uncond_Dual && serde_uncond_Dual2 && serde_uncond_Dual3 && serde_uncond_HyperDual && serde_uncond_HyperHyperDual = true) /\
+  serde_required_Dual = map fst serde_ser_Dual /\ serde_required_Dual2 = map fst serde_ser_Dual2 /\ serde_required_Dual3 = map fst serde_ser_Dual3 /\
+  serde_required_HyperDual = map fst serde_ser_HyperDual /\ serde_required_HyperHyperDual = map fst serde_ser_HyperHyperDual.
+Proof. vm_compute. repeat split; reflexivity. Qed.
+
 (* non-vacuity: a nested value is well typed *)
 Example C16_wt_example : wt nat (TStruct d_Dual2 (TStruct d_Dual TLeaf))
   (VRec nat [VRec nat [VLeaf nat 1; VLeaf nat 2]; VRec nat [VLeaf nat 3; VLeaf nat 4]; VRec nat [VLeaf nat 5; VLeaf nat 6]]) /\
   scalar_type (TStruct d_Dual2 (TStruct d_Dual TLeaf)).
 Proof. vm_compute. intuition. Qed.
 
-Print Assumptions C16_tables_ok. Print Assumptions C16_roundtrip. Print Assumptions C16_fields.
+Print Assumptions C16_tables_ok. Print Assumptions C16_roundtrip. Print Assumptions C16_fields. Print Assumptions C16_unconditional.
